@@ -3,6 +3,7 @@ import FlVerif.Spec.Consequent
 import FlVerif.Op.Consequent
 import FlVerif.Lemmas.Consequent
 import FlVerif.Gen.SetterGen
+import FlVerif.Lemmas.CodeConsequent
 
 /-! # C07 — each conclusion of a triggered rule contributes exactly its own activation
 
@@ -169,6 +170,28 @@ theorem trigger_spec (san : V → V) (pos : V → Bool) (en : Bool) (d : V) (imp
   cases en <;> simp [triggerRepaired, Spec.Consequent.trigger, modify_spec]
 
 end generic
+
+/-! ## the model is the code -/
+
+/-- **Tie A (code → model).**  `Gen.Code.Consequent_modify` is regenerated from the source of `Consequent.modify`
+    on every run (`fv/pylean.py`).  For every list of `Proposition` objects, every degree, sanitiser and
+    implication operator: an empty consequent raises `RuntimeError`; otherwise the first proposition that is not a
+    loaded conclusion decides the exception (`Py.Cons.defect`: no variable / a variable without terms / no term on
+    an enabled variable – `ValueError`, an enabled variable that is not an output variable – `RuntimeError`); and
+    when there is none, the activated terms appended to the fuzzy outputs are exactly those of
+    `Op.Consequent.modifyPinned` – the loop that carries the hedged degree into the following conclusions (F3).
+    The second part says the same for the conclusions `Consequent.load` builds. -/
+theorem code_modify (san : X ℚ → X ℚ) (impl : String) (d : X ℚ) :
+    (∀ ps : List Py.Cons.Proposition,
+      if ps = [] then Gen.Code.Consequent_modify.run san impl d ps {} = .error .runtime
+      else match ps.findSome? Py.Cons.defect with
+        | some e => Gen.Code.Consequent_modify.run san impl d ps {} = .error e
+        | none => ∃ σ, Gen.Code.Consequent_modify.run san impl d ps {} = .ok σ ∧
+            σ.out = modifyPinned san impl d (ps.map Py.Cons.toConcl)) ∧
+    (∀ cs : List (Concl (X ℚ)), cs ≠ [] →
+      ∃ σ, Gen.Code.Consequent_modify.run san impl d (cs.map Py.Cons.ofConcl) {} = .ok σ ∧
+        σ.out = modifyPinned san impl d cs) :=
+  ⟨Op.Consequent.code_modify san impl d, Op.Consequent.code_modify_loaded san impl d⟩
 
 /-! ## the sanitiser of `Activated.degree` and the F3 witness, at `X ℚ` -/
 
